@@ -319,7 +319,9 @@ def run(chk, facts, tier):
         "(GUARD.shortcircuit) in the evaluator (and the TPE evaluator) every evaluation of the right operand of && / || and of an if-branch is control-dependent on the "
         "left/test operand being a residual or having the required boolean value, the first operand is evaluated first, and the evaluated right operand passes get_as_bool; "
         "(TABLE.fold) ExprBuilder::and/or fold two boolean literals to b1&&b2 / b1||b2 and otherwise build And/Or(e1,e2) in order; (GUARD.dispatch) callers of "
-        "binary_relation/binary_arith restrict the operator. Declines ==, set algebra, like, in, attribute access and error classes (value-level).")
+        "binary_relation/binary_arith restrict the operator; (TABLE.binop / TABLE.unop) each of the 12 binary and 3 unary operators is evaluated by the primitive its "
+        "definition names (contains / is_subset with the operands swapped / negated is_disjoint / eval_in / get_tag / binary_relation / binary_arith; get_as_bool + flip / checked_neg / is_empty) "
+        "with each operand value in its own position and no other primitive in that arm. Declines ==, set algebra, like, in, attribute access and error classes (value-level).")
     chk.assumptions = ["MIR at mir-opt-level=0 reflects source control flow", "i64::checked_* behave as documented",
                        "Value::get_as_long / get_as_bool project the payload of the right type or fail with a type error"]
     arith_table(chk, facts)
@@ -329,3 +331,5 @@ def run(chk, facts, tier):
     fold_table(chk, facts)
     set_tables(chk, facts)
     c20.dispatch(chk, facts)
+    from rules import c02_ops
+    c02_ops.check(chk, facts)
